@@ -17,7 +17,15 @@ RULE = ("correspondence: every MdParserConfig field x (fixed universe of values 
         "canonical stored form, front-matter vs global doctree equality on generated documents, global config unchanged, "
         "one myst.topmatter warning per invalid value; non-trivial = value is not of the documented type, or is coerced, "
         "or is a dict merged over a non-empty global value")
-TRUSTED = ["coq/Cfg/Cfg.v is a hand transcription of dc_validators.py, the custom validators, MdParserConfig.__post_init__/copy, "
+TRUSTED = ["round 3: coq/Gen/ConfigSrc.v is regenerated from dc_validators.py / config/main.py by gen/c13_src.py: control flow "
+           "(if/for/continue/return/raise/try-except, and/or/not) by gen/c13_pywalk.py, atomic expressions and simple statements "
+           "by the tables of gen/c13_src.py into coq/Cfg/CfgSrcPrelude.v (isinstance -> isinst, len -> jv_len, x[k] / k in x -> "
+           "total dict/seq accessors, generator expressions all(isinstance..) -> forallb, set(value) -> canonical str set, "
+           "set(value).difference(names) -> ext_diff, setattr(inst, field.name, x) -> the validator's result, "
+           "setattr/getattr(new, name, ..) -> cfg_set/cfg_get, validate_field(new, ..) -> validate + the validator's own setattr on "
+           "new, warning(MD_TOPMATTER, msg) -> a warning kind chosen by the head of the message, raise X(..) -> Raise X); "
+           "proved equal to the hand model in Cfg/CfgSrcProofs.v",
+           "coq/Cfg/Cfg.v is a hand transcription of dc_validators.py, the custom validators, MdParserConfig.__post_init__/copy, "
            "merge_file_level and the docutils option decoding (checked by correspondence, not proved)",
            "coq/Gen/Config.v is regenerated from config/main.py on every run by gen/c13_config.py (fail-closed ast translator)",
            "Python dict invariants (unique keys) - the model iterates (key, value) pairs",
@@ -40,6 +48,11 @@ def gen(ctx):
     from lib import common
     text, info = G.generate(common.REPO)
     common.write_if_changed(common.COQ / "Gen" / "Config.v", text)
+    # round 3: validators and merge_file_level translated statement by statement
+    from gen import c13_src
+    src_text = c13_src.generate(common.REPO)
+    common.write_if_changed(common.COQ / "Gen" / "ConfigSrc.v", src_text)
+    ctx.gen_info["Gen/ConfigSrc.v"] = hashlib.sha256(src_text.encode()).hexdigest()[:16]
     ctx.gen_info.update({
         "sources": src_hashes(["myst_parser/config/main.py", "myst_parser/config/dc_validators.py",
                                "myst_parser/parsers/docutils_.py", "myst_parser/sphinx_ext/main.py"]),
